@@ -16,6 +16,7 @@ import I18n.Driver.Deb
 import I18n.Driver.PyBrace
 import I18n.Driver.Pipeline
 import I18n.Driver.Cli
+import I18n.Driver.Whole
 /- Line-protocol driver: `<model> <op> <args…>` per line on stdin, one canonical line per op on stdout. -/
 open I18n.Driver
 
@@ -38,6 +39,7 @@ def step (line : String) : String :=
   | "deb" :: op :: args => Deb.handle op args
   | "pybrace" :: op :: args => PyBrace.handle op args
   | "perlbrace" :: op :: args => PyBrace.handlePerl op args
+  | "whole" :: op :: args => Whole.handle op args
   | "pipeline" :: op :: args => Pipeline.handle op args
   | "cli" :: op :: args => Cli.handle op args
   | _ => "bad-op"
